@@ -20,7 +20,16 @@ def pattern(rng):
     sd = rng.random() < 0.5
     n = rng.choice([0, 0, 1, 1, 2, 3])
     tags = sorted(rng.sample(UNKNOWN_TAGS, n))
-    unk = [(t, bytes(rng.getrandbits(8) for _ in range(rng.choice([0, 1, 2, 5, 130])))) for t in tags]
+    def size():
+        c = rng.random()
+        if c < 0.8:
+            return rng.choice([0, 1, 2, 5, 127, 128, 130])
+        if c < 0.97:
+            # sizes around powers of two and their multiples (chunking / buffering boundaries)
+            k = rng.choice([255, 256, 257, 1023, 1024, 1025, 4095, 4096, 4097, 5000, 8191, 8192, 8193, 16383, 16384, 16385])
+            return k
+        return rng.choice([65535, 65536, 65537, 70000, 100001])
+    unk = [(t, rng.randbytes(size())) for t in tags]
     return sd, unk
 
 
